@@ -10,11 +10,11 @@ namespace PV.Props.C14
 open PV.Murmur PV.Spec.Murmur
 
 /-- the constants in today's source are the reference ones, and the tool seeds are the
-    documented ones (dedupe 1/1, shard 47849374332489, cache 0). -/
+    documented ones (dedupe 1/1, shard 47849374332489).  cache's seed is not part of this property:
+    its keys never leave the process (see PV.Props.C10.cache_empty_first_field_counts for what it must satisfy). -/
 theorem constants_are_reference :
     PV.Gen.murmurM = 0xc6a4a7935bd1e995 ∧ PV.Gen.murmurR = 47 ∧
-    PV.Gen.shardSeed = 47849374332489 ∧ PV.Gen.dedupeLineSeed = 1 ∧ PV.Gen.dedupeFieldSeed = 1 ∧
-    PV.Gen.cacheSeed = 0 := by
+    PV.Gen.shardSeed = 47849374332489 ∧ PV.Gen.dedupeLineSeed = 1 ∧ PV.Gen.dedupeFieldSeed = 1 := by
   decide
 
 /-- computing the hash reads no byte outside the string (every length, every tail 0–7). -/
